@@ -56,16 +56,18 @@ Record state := mkS {
   next : nat;                 (* ids below [next] have been created *)
   refs : list (loc * href);
   depth : nat;                (* index of the innermost scope *)
-  calls : nat                 (* Stack_Holder::call_depth *)
+  calls : nat;                (* Stack_Holder::call_depth *)
+  val : nat -> nat            (* the value last written to an object (used for counters: what a reader must see) *)
 }.
 
-Definition init : state := mkS (fun _ => false) (fun _ => 0) (fun _ => false) 0 [] 0 0.
+Definition init : state := mkS (fun _ => false) (fun _ => 0) (fun _ => false) 0 [] 0 0 (fun _ => 0).
 
 Inductive event :=
 | Destroyed (id : nat)
 | Touched (id : nat)
 | UseAfterFree (id : nat)
 | Live (n : nat)
+| Value (n : nat)
 | BadOp (code : nat)
 | RcUnderflow (id : nat)
 | OutOfFuel.
@@ -90,15 +92,17 @@ Definition loc_eqb (a b : loc) : bool :=
 Definition upd {A} (f : nat -> A) (i : nat) (v : A) : nat -> A := fun j => if j =? i then v else f j.
 
 Definition set_refs (s : state) (r : list (loc * href)) : state :=
-  mkS (alive s) (rc s) (tracked s) (next s) r (depth s) (calls s).
+  mkS (alive s) (rc s) (tracked s) (next s) r (depth s) (calls s) (val s).
 Definition set_rc (s : state) (i v : nat) : state :=
-  mkS (alive s) (upd (rc s) i v) (tracked s) (next s) (refs s) (depth s) (calls s).
+  mkS (alive s) (upd (rc s) i v) (tracked s) (next s) (refs s) (depth s) (calls s) (val s).
 Definition kill (s : state) (i : nat) : state :=
-  mkS (upd (alive s) i false) (upd (rc s) i 0) (tracked s) (next s) (refs s) (depth s) (calls s).
+  mkS (upd (alive s) i false) (upd (rc s) i 0) (tracked s) (next s) (refs s) (depth s) (calls s) (val s).
 Definition set_depth (s : state) (d : nat) : state :=
-  mkS (alive s) (rc s) (tracked s) (next s) (refs s) d (calls s).
+  mkS (alive s) (rc s) (tracked s) (next s) (refs s) d (calls s) (val s).
+Definition set_val (s : state) (i v : nat) : state :=
+  mkS (alive s) (rc s) (tracked s) (next s) (refs s) (depth s) (calls s) (upd (val s) i v).
 Definition set_calls (s : state) (c : nat) : state :=
-  mkS (alive s) (rc s) (tracked s) (next s) (refs s) (depth s) c.
+  mkS (alive s) (rc s) (tracked s) (next s) (refs s) (depth s) c (val s).
 
 (* the specification-side count: owning handles to [id] among a list of references *)
 Definition owns (id : nat) (h : href) : bool := h_own h && (h_tgt h =? id).
@@ -174,7 +178,7 @@ Definition add_ref (s : state) (l : loc) (h : href) : state :=
 
 Definition create (s : state) (l : loc) (tr : bool) : state :=
   let id := next s in
-  mkS (upd (alive s) id true) (upd (rc s) id 1) (upd (tracked s) id tr) (S id) ((l, mkH true id) :: refs s) (depth s) (calls s).
+  mkS (upd (alive s) id true) (upd (rc s) id 1) (upd (tracked s) id tr) (S id) ((l, mkH true id) :: refs s) (depth s) (calls s) (val s).
 
 Definition relocate (from : loc -> bool) (f : loc -> loc) (s : state) : state :=
   set_refs s (map (fun r => if from (fst r) then (f (fst r), snd r) else r) (refs s)).
@@ -202,7 +206,9 @@ Inductive prim :=
 | PStmtEnd (from : nat)                (* the evaluator's temporaries numbered from.. die (those of the statement that ends) *)
 | PCheckpoint
 | PEngineEnd                          (* every place except the C++ side's is destroyed *)
-| PCxxRelease.
+| PCxxRelease
+| PWrite (p : path) (n : nat)          (* the object the handle refers to is assigned the value n *)
+| PRead (p : path).                   (* the value of the object is read through the handle *)
 
 Definition is_temp_from (n : nat) (l : loc) : bool := match l with LRoot (RTemp k) => n <=? k | _ => false end.
 Definition is_conv (l : loc) : bool := match l with LRoot (RConv _) => true | _ => false end.
@@ -277,6 +283,10 @@ Definition step (s : state) (o : prim) : state * list event :=
   | PCheckpoint => (s, [Live (live_count s (next s))])
   | PEngineEnd => drop_where (fun l => is_root l && negb (is_cxx l)) s
   | PCxxRelease => drop_where is_cxx s
+  | PWrite p n =>
+      with_src s p (fun h => if alive s (h_tgt h) then (set_val s (h_tgt h) n, []) else (s, [UseAfterFree (h_tgt h)]))
+  | PRead p =>
+      with_src s p (fun h => (s, [if alive s (h_tgt h) then Value (val s (h_tgt h)) else UseAfterFree (h_tgt h)]))
   end.
 
 Fixpoint run (ops : list prim) (s : state) : state * list event :=
